@@ -564,8 +564,12 @@ class Corpus:
                         params["struct_name"] = f"My{f.capitalize()}{i}"
                 feats.append((f, params))
             ents = entries_for(rng, vals, rename_p=0.2)
+            evis = rng.choice(["pub", "pub(crate)", "pub"])
+            if evis != "pub":
+                # an item more visible than its enum is rustc's E0446, not the derive's business
+                feats = [(f, {k: ("pub(crate)" if k == "vis" and v == "pub" else v) for k, v in params.items()}) for f, params in feats]
             s = mk_subject(self.sid("V"), r, ents, feats, rng, split=rng.choice([1, 2]), family="V",
-                           note=f"custom names/vis cfg={kind}", vis=rng.choice(["pub", "pub(crate)", "pub"]))
+                           note=f"custom names/vis cfg={kind}", vis=evis)
             self.add(s, iter_count=3, str_limit=2)
 
     # --- sorted(value) / sorted(name) on declarations that are sorted: everything must still work
